@@ -26,6 +26,8 @@ fn plan(tier: Tier) -> Vec<Workload> {
     vec![
         Workload::new("programs", tier.pick(150_000, 3_000_000)),
         Workload::new("placements", tier.pick(20_000, 300_000)),
+        // the same interpreter runs the program a second time after a first run whose INPUT did not complete
+        Workload::new("rerun", tier.pick(30_000, 500_000)),
     ]
 }
 
@@ -129,7 +131,79 @@ fn placement_program(rng: &mut crate::util::Rng) -> Generated {
     g
 }
 
+fn run_rerun(ctx: &Ctx, index: u64, rep: &mut Report) {
+    let mut rng = ctx.rng(index);
+    let opts = GenOpts { inputs: true, input_boost: true, stops: false, rnd: false, kf_permille: 0, failure_permille: 150, ..GenOpts::default() };
+    let g = prog::generate(&mut rng, &opts);
+    let cap = 2000;
+    let mut sess = Session::new();
+    sess.keep_log = false;
+    sess.it.enable_tracing = true;
+    if exec::load_program(&mut sess, &g.prog).is_err() {
+        return;
+    }
+    // first run: ends, fails, or is abandoned at an input request (before or after a reply was handed over)
+    sess.call(Op::Line("RUN".into()));
+    let stop_at_request = rng.below(4);
+    let mut requests = 0;
+    let mut ridx = 0;
+    let mut n = 0;
+    let mut first_life = "ran-to-the-end";
+    while !sess.poisoned && n < cap {
+        n += 1;
+        if !sess.log.last().map(|r| r.res.is_ok()).unwrap_or(true) {
+            first_life = "failed";
+            break;
+        }
+        match sess.state() {
+            abasic_core::InterpreterState::Running => {
+                sess.call(Op::Cont);
+            }
+            abasic_core::InterpreterState::AwaitingInput => {
+                requests += 1;
+                if requests > stop_at_request {
+                    if rng.coin() {
+                        sess.call(Op::Input(exec::reply_at(&g.replies, ridx)));
+                    }
+                    sess.call(Op::Break);
+                    first_life = "abandoned-at-input";
+                    break;
+                }
+                sess.call(Op::Input(exec::reply_at(&g.replies, ridx)));
+                ridx += 1;
+            }
+            _ => break,
+        }
+    }
+    if sess.poisoned {
+        flush_trips(ctx, rep, index, &sess, || exec::program_json(&g.prog));
+        return;
+    }
+    sess.settle();
+    let model = exec::run_model(&g.prog, 0, &g.replies, cap);
+    let real = exec::run_real(&mut sess, "RUN", &g.replies, if model.capped { cap } else { model.turns.len() + 32 });
+    flush_trips(ctx, rep, index, &sess, || exec::program_json(&g.prog));
+    let o = CmpOpts { tracing: true, warnings: false };
+    if compare_turns(&real, &model, o).is_err() && crate::cmp::compare_flat(&real, &model, o).is_err() {
+        let why = compare_turns(&real, &model, o).err().map(|e| e.1).unwrap_or_default();
+        ctx.violation(rep, "C08", "second-run-input-sequence", index,
+            format!("second RUN on the same interpreter (first run {}): {}", first_life, why),
+            json!({"program": exec::program_json(&g.prog), "replies": g.replies, "first_run": first_life, "real_printed": real.printed(), "model_printed": model.printed()}));
+        return;
+    }
+    rep.count("rerun.cases");
+    rep.count(&format!("rerun.first_run_{}", first_life));
+    let reqs = model.turns.iter().filter(|t| t.status == Status::AwaitingInput).count() as u64;
+    rep.add("input_requests", reqs);
+    if reqs > 0 {
+        rep.nontrivial(hash_str(&format!("rerun{}{}", g.prog.text(), first_life)));
+    }
+}
+
 fn run_case(ctx: &Ctx, index: u64, rep: &mut Report) {
+    if ctx.workload == "rerun" {
+        return run_rerun(ctx, index, rep);
+    }
     let mut rng = ctx.rng(index);
     let g = match ctx.workload.as_str() {
         "programs" => {
@@ -222,6 +296,7 @@ fn finalize(_tier: Tier, rep: &mut Report) -> Finalize {
             ("extra_ignored".into(), 500),
             ("state_comparisons_at_quiescent_points".into(), 20_000),
             ("distinct_nontrivial".into(), 3_000),
+            ("rerun.first_run_abandoned-at-input".into(), 3_000),
         ],
         assumptions: vec![
             "reply texts stay inside the unambiguous zone of the reply model (no exponent forms, inf/nan, text after a closing quote, bare trailing colon)".into(),
